@@ -134,39 +134,32 @@ Fixpoint Bpow (k : nat) (u : vec) : vec := match k with O => u | S k => B (Bpow 
 Lemma Bpow_mono k : forall u w, (forall i, u i <= w i) -> forall s, Bpow k u s <= Bpow k w s.
 Proof. induction k as [|k IH]; intros u w H s; cbn [Bpow]; [apply H|]. apply B_mono. apply IH. exact H. Qed.
 
-Theorem error_bound (x y T : vec) (eps M : Q) :
-  0 <= eps ->
-  (forall s, inS s = true -> y s = Phi kd tr y s) ->                  (* y is a fixed point on S *)
-  (forall s, inS s = true -> Phi kd tr x s - x s <= eps) ->           (* x has residual at most eps on S *)
-  (forall s, inS s = false -> y s = x s) ->                           (* they agree elsewhere (finals, dead states) *)
-  (forall s, y s - x s <= 1) ->
-  (forall s, 1 + B T s <= T s) -> (forall s, 0 <= T s <= M) ->        (* certificate of bounded absorption time *)
-  forall s, y s - x s <= eps * T s.
+(* the abstract argument: e <= B e + eps, e bounded, T a certificate  ==>  e <= eps * T *)
+Theorem abstract_bound (e T : vec) (eps C M : Q) :
+  0 <= eps -> 0 <= C ->
+  (forall s, e s <= B e s + eps) ->
+  (forall s, inS s = false -> e s <= 0) ->
+  (forall s, e s <= C) ->
+  (forall s, 1 + B T s <= T s) -> (forall s, 0 <= T s <= M) ->
+  forall s, e s <= eps * T s.
 Proof.
-  intros Heps Hy Hx Hout He1 HT HTb.
-  set (e := fun i => y i - x i).
+  intros Heps HC Hee Hout He1 HT HTb.
   set (d := fun i => e i - eps * T i).
   assert (HT1 : forall s, 1 <= T s).
   { intros s. specialize (HT s). assert (0 <= B T s); [|lra].
     unfold B. destruct (inS s); [apply A_nonneg; intros i; apply HTb|lra]. }
   assert (HM : 1 <= M) by (specialize (HT1 0%nat); specialize (HTb 0%nat); lra).
-  (* e <= B e + eps *)
-  assert (Hee : forall s, e s <= B e s + eps).
-  { intros s. unfold B, e. destruct (inS s) eqn:Es.
-    - pose proof (Phi_diff x y s). rewrite (Hy s Es) at 1. specialize (Hx s Es). lra.
-    - rewrite (Hout s Es). lra. }
-  (* d <= B d *)
   assert (Hdd : forall s, d s <= B d s).
   { intros s. pose proof (Hee s) as H1. pose proof (HT s) as H2. unfold B in *. destruct (inS s) eqn:Es.
     - assert (H3 : A e s <= A d s + eps * A T s).
       { eapply Qle_trans; [apply (A_mono e (fun i => d i + eps * T i)); intros i; unfold d; lra|].
         eapply Qle_trans; [apply A_subadd|]. pose proof (A_scale eps T s Heps). lra. }
       unfold d at 1. nra.
-    - unfold d, e. rewrite (Hout s Es). specialize (HT1 s). nra. }
+    - unfold d. specialize (Hout s Es). specialize (HT1 s). nra. }
   assert (Hdk : forall k s, d s <= Bpow k d s).
   { induction k as [|k IH]; intros s; cbn [Bpow]; [lra|]. eapply Qle_trans; [apply Hdd|]. apply B_mono. exact IH. }
-  assert (HdT : forall s, d s <= T s).
-  { intros s. unfold d, e. specialize (He1 s). specialize (HT1 s). nra. }
+  assert (HdT : forall s, d s <= C * T s).
+  { intros s. unfold d. specialize (He1 s). specialize (HT1 s). nra. }
   set (rho := 1 - 1 / M).
   assert (Hrho : 0 <= rho <= 1).
   { subst rho. split.
@@ -178,30 +171,58 @@ Proof.
     assert (Hf : (1 - 1 / M) * T s == T s - T s / M) by (field; lra). rewrite Hf. lra. }
   assert (Hpow0 : forall k, 0 <= qpow rho k <= 1).
   { induction k as [|k IH]; cbn [qpow]; [lra|]. nra. }
-  assert (HBk : forall k s, Bpow k T s <= qpow rho k * T s).
+  assert (HBk : forall k s, Bpow k (fun i => C * T i) s <= C * (qpow rho k * T s)).
   { induction k as [|k IH]; intros s; cbn [Bpow qpow]; [lra|].
-    eapply Qle_trans; [apply (B_mono _ (fun i => qpow rho k * T i)); exact IH|].
-    assert (Hsc : B (fun i => qpow rho k * T i) s <= qpow rho k * B T s).
-    { unfold B. destruct (inS s); [apply A_scale; apply Hpow0|lra]. }
-    specialize (HBT s). pose proof (Hpow0 k). nra. }
+    eapply Qle_trans; [apply (B_mono _ (fun i => (C * qpow rho k) * T i)); intros i; specialize (IH i); lra|].
+    assert (Hsc : B (fun i => (C * qpow rho k) * T i) s <= (C * qpow rho k) * B T s).
+    { unfold B. destruct (inS s); [apply A_scale; pose proof (Hpow0 k); nra|lra]. }
+    specialize (HBT s). pose proof (Hpow0 k).
+    set (c := C * qpow rho k) in *. assert (Hc0 : 0 <= c) by (subst c; nra).
+    assert (Heq : C * (rho * qpow rho k * T s) == c * (rho * T s)) by (subst c; ring).
+    rewrite Heq. eapply Qle_trans; [exact Hsc|]. nra. }
   assert (Hgeo : forall k, qpow rho k * (M + inject_Z (Z.of_nat k)) <= M).
   { induction k as [|k IH]; cbn [qpow].
     - change (inject_Z (Z.of_nat 0)) with 0. lra.
     - rewrite Nat2Z.inj_succ. unfold Z.succ. rewrite inject_Z_plus. change (inject_Z 1) with 1.
       assert (HrM : rho * M == M - 1) by (subst rho; field; lra).
       pose proof (Hpow0 (S k)) as Hp. cbn [qpow] in Hp. pose proof (Hpow0 k). nra. }
-  intros s. destruct (Qlt_le_dec 0 (d s)) as [Hpos|Hneg]; [|unfold d, e in Hneg; lra].
+  intros s. destruct (Qlt_le_dec 0 (d s)) as [Hpos|Hneg]; [|unfold d in Hneg; lra].
   exfalso.
-  assert (Hall : forall k, d s * (M + inject_Z (Z.of_nat k)) <= M * M).
-  { intros k. pose proof (Hdk k s) as H1. pose proof (Bpow_mono k d T HdT s) as H2. pose proof (HBk k s) as H3.
+  assert (Hall : forall k, d s * (M + inject_Z (Z.of_nat k)) <= C * (M * M)).
+  { intros k. pose proof (Hdk k s) as H1. pose proof (Bpow_mono k d (fun i => C * T i) HdT s) as H2. pose proof (HBk k s) as H3.
     pose proof (Hgeo k) as H4. pose proof (HTb s) as H5. pose proof (Hpow0 k) as H6.
     assert (0 <= inject_Z (Z.of_nat k)) by (change 0 with (inject_Z 0); rewrite <- Zle_Qle; lia).
-    assert (d s <= qpow rho k * M) by nra. nra. }
-  destruct (Qarchimedean (M * M / d s)) as [p Hp].
+    set (q := qpow rho k) in *.
+    assert (Hq1 : q * T s <= q * M) by nra.
+    assert (Hq2 : C * (q * T s) <= C * (q * M)) by nra.
+    assert (Hd1 : d s <= C * (q * M)) by lra.
+    set (K := inject_Z (Z.of_nat k)) in *.
+    assert (Hq3 : q * M * (M + K) <= M * M) by nra.
+    assert (Hq4 : C * (q * M) * (M + K) <= C * (M * M)).
+    { assert (Heq : C * (q * M) * (M + K) == C * (q * M * (M + K))) by ring. rewrite Heq. nra. }
+    assert (0 <= M + K) by lra. nra. }
+  destruct (Qarchimedean (C * (M * M) / d s)) as [p Hp].
   specialize (Hall (Pos.to_nat p)). rewrite positive_nat_Z in Hall.
-  assert (M * M < d s * (Z.pos p # 1)).
-  { set (q := M * M / d s) in *. assert (Hq : M * M == q * d s) by (subst q; field; lra).
+  assert (C * (M * M) < d s * (Z.pos p # 1)).
+  { set (q := C * (M * M) / d s) in *. assert (Hq : C * (M * M) == q * d s) by (subst q; field; lra).
     rewrite Hq. nra. }
   change (inject_Z (Z.pos p)) with (Z.pos p # 1) in Hall. nra.
+Qed.
+
+Theorem error_bound (x y T : vec) (eps M : Q) :
+  0 <= eps ->
+  (forall s, inS s = true -> y s = Phi kd tr y s) ->                  (* y is a fixed point on S *)
+  (forall s, inS s = true -> Phi kd tr x s - x s <= eps) ->           (* x has residual at most eps on S *)
+  (forall s, inS s = false -> y s = x s) ->                           (* they agree elsewhere (finals, dead states) *)
+  (forall s, y s - x s <= 1) ->
+  (forall s, 1 + B T s <= T s) -> (forall s, 0 <= T s <= M) ->        (* certificate of bounded absorption time *)
+  forall s, y s - x s <= eps * T s.
+Proof.
+  intros Heps Hy Hx Hout He1 HT HTb.
+  apply (abstract_bound (fun i => y i - x i) T eps 1 M); try assumption; try lra.
+  - intros s. unfold B. destruct (inS s) eqn:Es.
+    + pose proof (Phi_diff x y s). rewrite (Hy s Es) at 1. specialize (Hx s Es). lra.
+    + rewrite (Hout s Es). lra.
+  - intros s Es. rewrite (Hout s Es). lra.
 Qed.
 End Bound.
